@@ -1319,6 +1319,14 @@ class EventBus:
                 # logger.debug(f"❌ {self} Handler monitor task cleanup error for {get_handler_name(handler)}#{str(id(handler))[-4:]}({event}): {type(e).__name__}: {e}")
                 pass
 
+            # The clean-up awaits above swallow CancelledError because it is expected from the tasks cancelled right here.
+            # But if it is the task running this code that is being cancelled (an enclosing handler's timeout, asyncio.run()
+            # shutting down) while it was in this clean-up, that request must not get lost: the handler that is processing
+            # this event inline would simply carry on as if nothing had happened and never be stopped again
+            current_task = asyncio.current_task()
+            if current_task is not None and current_task.cancelling():
+                raise asyncio.CancelledError(f'{self} handler clean-up interrupted by cancellation of {current_task.get_name()}')
+
     def _would_create_loop(self, event: 'BaseEvent[Any]', handler: EventHandler) -> bool:
         """Check if calling this handler would create a loop"""
 
